@@ -148,7 +148,7 @@ class IntervalInterp:
             return self.block(s.body if t else s.orelse, env)
         if isinstance(s, ast.Return):
             return ("ret", self.ev(s.value, env), s)
-        if isinstance(s, (ast.Pass,)) or (isinstance(s, ast.Expr) and isinstance(s.value, ast.Constant)):
+        if isinstance(s, (ast.Pass, ast.Assert)) or (isinstance(s, ast.Expr) and isinstance(s.value, ast.Constant)):
             return None
         raise Undecided("statement %s" % type(s).__name__)
 
